@@ -39,3 +39,56 @@ Proof. vm_compute. reflexivity. Qed.
 Lemma attr_tables_disjoint :
   forallb (fun l => negb (existsb (String.eqb l) attribute_literals)) attribute_qnames = true.
 Proof. vm_compute. reflexivity. Qed.
+
+(* ---- the generated class tables agree with the hand-written W3C tables ---- *)
+From Prov Require Import Spec.
+
+Definition list_str_eqb (a b : list string) : bool :=
+  Nat.eqb (length a) (length b) && forallb (fun p => String.eqb (fst p) (snd p)) (combine a b).
+
+Definition kind_entry_eqb (a b : string * string * list string * bool) : bool :=
+  let '(k1, n1, f1, e1) := a in let '(k2, n2, f2, e2) := b in
+  String.eqb k1 k2 && String.eqb n1 n2 && list_str_eqb f1 f2 && Bool.eqb e1 e2.
+
+(* every generated record class is the spec's, with the same PROV-N/JSON name, the
+   same formal arguments in the same order, and the same element/relation status;
+   and no spec kind is missing *)
+Lemma rec_classes_agree_with_spec :
+  forallb (fun g => existsb (kind_entry_eqb g) spec_kinds) rec_classes = true /\
+  forallb (fun s => existsb (kind_entry_eqb s) rec_classes) spec_kinds = true /\
+  length rec_classes = length spec_kinds.
+Proof. vm_compute. repeat split. Qed.
+
+Lemma uris_agree_with_spec : prov_uri = spec_prov_uri /\ xsd_uri = spec_xsd_uri.
+Proof. split; reflexivity. Qed.
+
+(* PROV-JSON keys of formal attributes are prov:<argument name> *)
+Lemma json_attribute_keys :
+  forallb (fun kv => String.eqb (fst kv) ("prov:" ++ snd kv)) attributes_id_map = true /\
+  forallb (fun k => existsb (fun kv => String.eqb (snd kv) k) attributes_id_map)
+          (flat_map (fun e => snd (fst e)) spec_kinds) = true.
+Proof. vm_compute. split; reflexivity. Qed.
+
+(* record-kind keys used by the reader *)
+Lemma json_record_keys :
+  forallb (fun e => match lookup (snd (fst (fst e))) record_ids_map with
+                    | Some k => String.eqb k (fst (fst (fst e)))
+                    | None => false end) spec_kinds = true.
+Proof. vm_compute. reflexivity. Qed.
+
+(* time-valued formal attributes *)
+Lemma time_attrs_agree :
+  list_str_eqb attribute_literals ["endTime"; "startTime"; "time"] = true /\
+  forallb (fun t => existsb (String.eqb t) attribute_literals) spec_time_args = true.
+Proof. vm_compute. split; reflexivity. Qed.
+
+(* subtype names *)
+Lemma subtypes_agree :
+  forallb (fun s => let '(n, ty, base) := s in
+             match lookup ty prov_base_cls with
+             | Some b => String.eqb b base
+             | None => false end &&
+             match lookup ty (additional_n_map ++ [("Bundle", "bundle")]) with
+             | Some nm => String.eqb nm n
+             | None => false end) spec_subtypes = true.
+Proof. vm_compute. reflexivity. Qed.
